@@ -470,3 +470,26 @@ def codec_exact(ctx, prog):
         ("self.handle_error_datagram(address, message)", "not isinstance(message, RequestDatagram) and isinstance(message, ErrorDatagram)", "an error to the error handler"),
         ("self.handle_response_datagram(address, message)", "not isinstance(message, RequestDatagram) and not isinstance(message, ErrorDatagram)", "anything else (a response) to the response handler"),
     ], "datagram dispatch: ")
+    # memoisation keyed by an object compares that object with ==: a cached method of a value class must not read a field the class's equality ignores
+    # (KademliaPeer compares address / node id / udp port; tcp_port, which a re-announcement updates and compact addresses carry, is not compared)
+    CACHERS = ("lru_cache", "cache", "cachedproperty", "cached_property", "cache_concurrent", "lru_cache_concurrent")
+    n = 0
+    for cls_ in prog.classes.values():
+        if not cls_.module.name.startswith("lbry.dht"):
+            continue
+        ignored = set()
+        for x in cls_.node.body:
+            if isinstance(x, ast.AnnAssign) and isinstance(x.value, ast.Call) and call_name(x.value) == "field" and is_const(kwarg(x.value, "compare"), False):
+                ignored.add(norm_text(x.target))
+        if not ignored:
+            continue
+        for m in cls_.methods.values():
+            n += 1
+            decs = [call_name(d_) if isinstance(d_, ast.Call) else (dotted(d_) or "").split(".")[-1] for d_ in m.node.decorator_list]
+            cached = [d_ for d_ in decs if d_ in CACHERS]
+            reads = sorted({a_.attr for a_ in ast.walk(m.node) if isinstance(a_, ast.Attribute) and isinstance(a_.value, ast.Name) and a_.value.id == "self" and a_.attr in ignored})
+            ok = not (cached and reads)
+            if cached or not ok:
+                ctx.ob("C17-D3/CACHE", ok, m.site(), f"{m.short}: memoised (`{cached[0]}`) and reads only fields that take part in equality", detail=f"reads {reads}, which == ignores: after the field "
+                       f"changes the cached value is stale", func=m.qualname, key=f"C17-D3/CACHE|{m.qualname}")
+    ctx.ob("C17-D3/CACHE", n > 0, "lbry/dht/peer.py:1", "value classes with fields excluded from equality were found and their methods checked for memoisation", detail=str(n), key="C17-D3/CACHE|scanned")
